@@ -945,6 +945,16 @@ func scJSON(v interface{}) string {
 type scProbe struct{}
 
 func (scProbe) Resolve(f *ggql.Field, _ map[string]interface{}) (interface{}, error) {
+	switch f.Name {
+	case "query", "mutation", "subscription":
+		return scOpObj{}, nil
+	}
+	return nil, nil
+}
+
+type scOpObj struct{}
+
+func (scOpObj) Resolve(f *ggql.Field, _ map[string]interface{}) (interface{}, error) {
 	return nil, nil
 }
 
